@@ -354,7 +354,11 @@ theorem clear_rel {c : CW} {s : WS} (hi : Inv c) (hr : Rel c s) {w' : WM} {hs : 
       intro o ho
       show o < (killEnts s.ents L).length
       rw [killEnts_length]; exact hr.markedLt o ho
-    markedNodup := hr.markedNodup }
+    markedNodup := hr.markedNodup
+    markedOld := by
+      intro o ho h hh
+      show h ∉ createHandles w'.buffers
+      rw [hsame.buffers]; exact hr.markedOld o ho h hh }
   · intro o h ho
     rw [alive_kill]
     by_cases hoL : o ∈ L
